@@ -16,7 +16,7 @@ from hv.worlds import profile, st_world, world_summary
 
 PROP = "C01"
 RULE = ("the harness owns the process / hash-seed dimension: a pool of long-lived worker processes, each started with a different PYTHONHASHSEED and a different local time zone (TZ) "
-        "(always including 0, 1 and 3), plus one worker that runs every scenario twice in one process; the parent draws one pure-data scenario and "
+        "(always including 0, 1 and 3), one of them a brand-new process for every scenario while the others are long-lived and load and step a small warm-up world (other vehicle definitions under the same ids) first, plus one worker that runs every scenario twice in one process; the parent draws one pure-data scenario and "
         "ships it to all workers: (a) generated file-based scenarios rich in ties and shared membership (vehicles stacked on one site, requests with "
         "equal value / origin / timestamp, one-plug stations reached in the same step, stations with 2-3 on-shift plug types, co-located bases, "
         "vehicles in several fleets, human and autonomous drivers, both charging search types, all network kinds, built-in generators plus a "
